@@ -114,17 +114,14 @@ func VerifC15Covers() {
 // valid commands that a case-insensitive comparison would confuse.
 var c15Greek = []string{"\u03c3", "\u03c2", "\u00b5", "\u03bc", "\u03b2", "\u03d0"}
 
+// c15Text: n characters, each one of: 'a', 'b', '/', or one of the Greek
+// look-alikes (shapes only: case folding of symbolic runes is table-driven and
+// makes every comparison a large case split).
 func c15Text(tag string, n int) string {
+	alphabet := append([]string{"a", "b", "/"}, c15Greek...)
 	s := ""
 	for i := 0; i < n; i++ {
-		k := vChoose(tag+"_ch"+string(rune('0'+i)), 1+len(c15Greek))
-		if k == 0 {
-			b := vString(tag+string(rune('0'+i)), 1)
-			vAssume(b[0] < 0x80)
-			s += b
-		} else {
-			s += c15Greek[k-1]
-		}
+		s += alphabet[vChoose(tag+"_ch"+string(rune('0'+i)), len(alphabet))]
 	}
 	return s
 }
